@@ -64,6 +64,16 @@ def dump (d : D) : String :=
     ++ " B=" ++ ",".intercalate b ++ " E=" ++ ",".intercalate e ++ " R=" ++ ",".intercalate r
     ++ " K=" ++ ",".intercalate (d.ids.map (fun id => match st.pkOf id with | none => "nil" | some k => toHex k))
 
+def readerStr (d : D) : String :=
+  let c := d.committed
+  let h := d.st.height
+  if candidatesPanic realCfg c then "PANIC" else
+  let cs := sortStrs ((candidates realCfg c h).map (fun m => toString m.stake ++ "/" ++ toString m.applyHeight ++ "/" ++ toString m.typ))
+  let ps := d.ids.map (fun id => match proposeMiner realCfg c id with
+    | none => "nil"
+    | some m => toString m.stake ++ "/" ++ toString m.applyHeight ++ "/" ++ toString m.typ)
+  ",".intercalate cs ++ "|" ++ ",".intercalate ps ++ "|" ++ toString (proposerCount realCfg c h)
+
 def badKind? : String → Option BadKind
   | "apply-json" => some .applyJson
   | "add-json" => some .addJson
@@ -149,7 +159,7 @@ def stepOpt (d : D) (ws : List String) : Option (D × String) :=
       -- the block being executed is discarded: the account state falls back to the last block end; the public-key
       -- cache is not part of it and keeps what the discarded block put there
       pure ({ d with st := rewind d.committed d.st }, "ok")
-    | ["dump"] => pure (d, dump d)
+    | ["dump"] => pure (d, dump d ++ " X=" ++ readerStr d)
     | _ => none
 
 def step (d : D) (line : String) : D × String :=
